@@ -131,18 +131,20 @@ PerOpt(d, xs, tabs, n) ==       \* xs[j], tabs[j]: expression text and table of 
       N == Len(tabs)
       sg == [j \in 1..N |-> Sig(d, tabs[j], O)]
       classes == {sg[j] : j \in 1..N}
-      mem == [c \in classes |-> {j \in 1..N : sg[j] = c}]
-      rep == [c \in classes |-> CHOOSE j \in mem[c] : \A k \in mem[c] : j <= k]
-      alt == [c \in classes |-> CHOOSE j \in mem[c] : \A k \in mem[c] : j >= k]
+      rep == [c \in classes |-> CHOOSE j \in 1..N : sg[j] = c]                     \* first member (TLC's CHOOSE takes the first)
+      alt == [c \in classes |-> N + 1 - (CHOOSE k \in 1..N : sg[N + 1 - k] = c)]     \* last member
       cores == [c \in classes |-> LET g == Core(d, tabs[rep[c]], O) IN
                                   [g EXCEPT !.ok = @ /\ (alt[c] = rep[c] \/ Core(d, tabs[alt[c]], O) = g)]]
       groups == {cores[c] : c \in classes}
-  IN {[o |-> n, x |-> Cap(SetToSeq({xs[j] : j \in UNION {mem[c] : c \in {k \in classes : cores[k] = g}}})),
+  IN {[o |-> n, x |-> Cap(SetToSeq({xs[j] : j \in {i \in 1..N : cores[sg[i]] = g}})),
        exp |-> g.exp, hit |-> g.hit, mir |-> g.mir, cls |-> g.cls, info |-> g.info, log |-> g.log, ok |-> g.ok]
       : g \in groups}
-CasesWith(d, xs, tabs) == UNION {PerOpt(d, xs, tabs, n) : n \in Sampled(d)}
-Cases(d) == LET tsq == SetToSeq(Ts(d)) IN
-            CasesWith(d, [j \in 1..Len(tsq) |-> Expr(tsq[j])], [j \in 1..Len(tsq) |-> TabWith(d, tsq[j], HitM, SilM)])
+\* (pk is bound by a set constructor, not by LET or as an argument: TLC hands a lazily evaluated argument on
+\* unevaluated into every iteration of a set constructor, and would rebuild the tables for each option)
+Cases(d) ==
+  UNION {UNION {PerOpt(d, pk.xs, pk.tabs, n) : n \in Sampled(d)} :
+         pk \in {LET tsq == SetToSeq(Ts(d)) IN
+                 [xs |-> [j \in 1..Len(tsq) |-> Expr(tsq[j])], tabs |-> [j \in 1..Len(tsq) |-> TabWith(d, tsq[j], HitM, SilM)]]}}
 
 ChunkSize == 10
 RECURSIVE WriteChunks(_, _, _, _)
